@@ -297,6 +297,11 @@ static void run_case(const Args& a, long i, const std::string& dir, Out& o) {
     std::vector<cell_ptr> cells; std::vector<mesh> meshes; std::vector<Expected> ex(ncells);
     long gen_faces = 0, faces_total = 0, max_faces_cell = 0, min_faces_cell = 1 << 30; long pop_free_nodes = 0, pop_free_faces = 0, cells_with_free = 0; std::set<int> classes_seen;
     std::map<std::string, long> slot_routes;
+    // persistent ids: equal to the list position (start of a run), or what divisions and removals leave behind (increasing with gaps: a mother leaves, her daughters
+    // are appended with fresh ids; a removed cell leaves a hole), or in no particular order
+    const int id_mode = route == 2 ? 0 : (g.coin(0.45) ? 0 : g.coin(0.8) ? 1 : 2); std::vector<unsigned> ids((size_t)ncells); { unsigned nxt = 0; for (int k = 0; k < ncells; k++) { if (id_mode != 0 && g.coin(0.4)) nxt += (unsigned)g.range(1, 5); ids[(size_t)k] = nxt++; }
+        if (id_mode == 2) for (int k = ncells - 1; k > 0; k--) std::swap(ids[(size_t)k], ids[(size_t)g.range(0, k)]); }
+    slot_routes[id_mode == 0 ? "ids_equal_list_positions" : id_mode == 1 ? "ids_increasing_with_gaps" : "ids_in_no_particular_order"]++;
     for (int k = 0; k < ncells; k++) {
         int sc; { double u = g.uni(); sc = u < 0.15 ? 0 : u < 0.75 ? 1 : u < 0.95 ? 2 : 3; }
         if (gen_faces > face_budget && sc > 1) sc = 1;
@@ -304,13 +309,13 @@ static void run_case(const Args& a, long i, const std::string& dir, Out& o) {
         // ordinary placement: radius s on a lattice with spacing 3 s (cells do not touch); regime 1 adds a far translation
         int ix = k % lat, iy = (k / lat) % lat, iz = k / (lat * lat); double off0 = g.coin(0.5) ? -1.5 * (lat - 1) : 0.0;
         gen::scale(m, s, s, s); gen::translate(m, s * 3 * (ix + off0) + far * far_dir[0], s * 3 * (iy + off0) + far * far_dir[1], s * 3 * (iz + off0) + far * far_dir[2]);
-        int cls = g.range(0, 4); ex[k].cls = cls; ex[k].id = (unsigned)k; classes_seen.insert(cls);
+        int cls = g.range(0, 4); ex[k].cls = cls; ex[k].id = ids[(size_t)k]; classes_seen.insert(cls);
         int extra_nodes = 0;
         if ((route == 2 && g.coin(0.3)) || (route != 2 && g.coin(0.12))) {   // nodes no face refers to: interleaved with the used ones
             extra_nodes = g.range(1, 5); for (int q = 0; q < extra_nodes; q++) { size_t at = g.u64() % (m.P.size() + 1); std::array<double, 3> p = {s * g.uni(-1, 1), s * g.uni(-1, 1), s * g.uni(-1, 1)}; m.P.insert(m.P.begin() + at, p); for (auto& t : m.T) for (auto& v : t) if (v >= at) v++; }
         }
         if (route == 2) { meshes.push_back(gen::to_repo_mesh(m)); if (extra_nodes) slot_routes["mesh_with_unreferenced_nodes"]++; continue; }
-        cell_ptr cp = gen::make_cell_of_class(cls, m, (unsigned)k, types[cls]);
+        cell_ptr cp = gen::make_cell_of_class(cls, m, ids[(size_t)k], types[cls]);
         if (extra_nodes) slot_routes["unreferenced_nodes_at_construction"]++;
         double u = g.uni();
         if (u < 0.35) { SlotOps so = manual_slot_ops(*cp, g, g.range(1, 8)); slot_routes["manual_vertex_removal"] += so.removed; slot_routes["manual_face_split"] += so.split; }
@@ -319,13 +324,13 @@ static void run_case(const Args& a, long i, const std::string& dir, Out& o) {
             { std::vector<orc::V3> P; std::vector<orc::Tri> T; gen::extract(*cp, P, T); double mn = INFINITY, sum = 0; long n = 0; for (auto& f : T) { unsigned q[3] = {f.a, f.b, f.c}; for (int e = 0; e < 3; e++) { double d = (double)(P[q[e]] - P[q[(e + 1) % 3]]).norm(); mn = std::min(mn, d); sum += d; n++; } }
                 double l_min = g.coin() ? mn * g.uni(1.05, 1.6) : (sum / n) * g.uni(0.5, 0.9);
                 try { local_mesh_refiner lmr(l_min, 1e100 * s, false); size_t f0 = cp->get_nb_of_faces(); lmr.refine_mesh(cp); slot_routes["refiner_merge_pass"]++; slot_routes["refiner_faces_removed"] += (long)(f0 - cp->get_nb_of_faces());
-                      if (cp->get_nb_of_faces() < 4) { slot_routes["refiner_collapsed_cell_rebuilt"]++; cp = gen::make_cell_of_class(cls, m, (unsigned)k, types[cls]); } }   // a closed surface has at least 4 triangles
-                catch (const std::exception&) { slot_routes["refiner_threw_cell_rebuilt"]++; cp = gen::make_cell_of_class(cls, m, (unsigned)k, types[cls]); } }   // a pass that throws may leave the cell half-edited: start again from the mesh
+                      if (cp->get_nb_of_faces() < 4) { slot_routes["refiner_collapsed_cell_rebuilt"]++; cp = gen::make_cell_of_class(cls, m, ids[(size_t)k], types[cls]); } }   // a closed surface has at least 4 triangles
+                catch (const std::exception&) { slot_routes["refiner_threw_cell_rebuilt"]++; cp = gen::make_cell_of_class(cls, m, ids[(size_t)k], types[cls]); } }   // a pass that throws may leave the cell half-edited: start again from the mesh
         }
         // the manual vertex removals can flatten a small cell (a closed surface that encloses no volume is not a cell and the initializer rejects it): start again from the mesh
         { std::vector<orc::V3> P; std::vector<orc::Tri> T; gen::extract(*cp, P, T); orc::Geo ge = orc::geometry(P, T);
-          if (!(ge.volume > 1e-3L * ge.area * std::sqrt(ge.area))) { slot_routes["flat_after_slot_operations_cell_rebuilt"]++; cp = gen::make_cell_of_class(cls, m, (unsigned)k, types[cls]); } }
-        cells.push_back(cp);
+          if (!(ge.volume > 1e-3L * ge.area * std::sqrt(ge.area))) { slot_routes["flat_after_slot_operations_cell_rebuilt"]++; cp = gen::make_cell_of_class(cls, m, ids[(size_t)k], types[cls]); } }
+        cp->set_local_id((unsigned)cells.size()); cells.push_back(cp);
     }
     // ---- coordinate regimes 2..4: overwrite the stored positions (the cached areas/volumes keep their ordinary values)
     auto for_each_coord = [&](const std::function<void(int cell, size_t node, int axis, double& x)>& fn) {
